@@ -26,7 +26,9 @@ fn gen_stream(stream: &str, n: u64, seed: u64) {
     let mut r = rng::Rng::new(seed ^ stream.bytes().fold(0u64, |a, b| a.wrapping_mul(131).wrapping_add(b as u64)));
     let out = std::io::stdout(); let mut w = std::io::BufWriter::new(out.lock());
     match stream {
-        "cmp" => for _ in 0..n { let a = gen::gen_val(&mut r, 2); let b = if r.chance(1, 8) { a.clone() } else { gen::gen_val(&mut r, 2) };
+        "cmp" => for _ in 0..n { let lim = |r: &mut rng::Rng| -> slac::Value { match r.below(9) { 0 => slac::Value::String("9223372036854775807".into()), 1 => slac::Value::String("-9223372036854775808".into()), 2 => slac::Value::Number(1e19), 3 => slac::Value::Number(1e30),
+                4 => slac::Value::Number(9223372036854775808.0), 5 => slac::Value::Number(-1e19), 6 => slac::Value::Number(-9223372036854775808.0), 7 => slac::Value::String("9007199254740993".into()), _ => slac::Value::Number(9007199254740992.0) } };
+            let (a, b) = if r.chance(1, 40) { (lim(&mut r), lim(&mut r)) } else { let a = gen::gen_val(&mut r, 2); let b = if r.chance(1, 8) { a.clone() } else { gen::gen_val(&mut r, 2) }; (a, b) };
             writeln!(w, "cmp {} {}", show_in(&a), show_in(&b)).unwrap(); },
         "num" => for _ in 0..n { writeln!(w, "{}", numrun::gen_num_line(&mut r)).unwrap(); },
         "evaltable" => { let d = gen::table_env().show(); for i in 0..gen::table_len() { writeln!(w, "eval {} {}", d, show_expr(&gen::table_case(i).unwrap())).unwrap(); } }
@@ -55,7 +57,11 @@ fn gen_stream(stream: &str, n: u64, seed: u64) {
             for len in 0..=(n as usize) { for mut i in 0..k.pow(len as u32) { let mut ts = vec![]; for _ in 0..len { ts.push(kinds[(i % k) as usize].clone()); i /= k; }
                 writeln!(w, "parse {}", lang::show_tok_line(&ts)).unwrap(); } } }
         "parse" => for _ in 0..n { let len = r.usize(41); let ts = lang::gen_tokens(&mut r, len); writeln!(w, "parse {}", lang::show_tok_line(&ts)).unwrap(); },
-        "rt" => for _ in 0..n { let d = 1 + r.below(4) as u32; let e = if r.chance(1, 60) { lang::gen_wide_tree(&mut r) } else { lang::gen_src_tree(&mut r, d) }; writeln!(w, "rt {} {}", r.below(6), show_expr(&e)).unwrap(); },
+        "rt" => { let mut prev: Option<slac::Expression> = None; for _ in 0..n { let d = 1 + r.below(4) as u32;
+            // 1 in 8: the PREVIOUS tree again with every literal replaced by a loosely equal one (1 / true, 0 / false): consecutive compilations
+            // of look-alike texts on one thread
+            let e = match &prev { Some(p) if r.chance(1, 8) => gen::loosen_src_expr(&mut r, p), _ => if r.chance(1, 60) { lang::gen_wide_tree(&mut r) } else { lang::gen_src_tree(&mut r, d) } };
+            writeln!(w, "rt {} {}", r.below(6), show_expr(&e)).unwrap(); prev = Some(e); } },
         "opt" | "optill" => for _ in 0..n { let d = gen::gen_env(&mut r); let depth = 1 + r.below(4) as u32;
             let mut e = tree::gen_opt_tree(&mut r, depth, stream == "optill"); if r.chance(1, 3) { gen::add_repeats(&mut r, &mut e); } writeln!(w, "opt {} {}", d.show(), show_expr(&e)).unwrap(); },
         // `wide:<stream>`: ONE list of thousands of small elements per case (n cases): recovered failures per element, or constant elements
@@ -97,7 +103,10 @@ fn gen_stream(stream: &str, n: u64, seed: u64) {
         "re" => for _ in 0..n { writeln!(w, "{}", re::gen_re_line(&mut r)).unwrap(); },
         "nd" => for _ in 0..n { writeln!(w, "{}", call::gen_nd_line(&mut r)).unwrap(); },
         "relaw" => for _ in 0..n { writeln!(w, "{}", re::gen_relaw_line(&mut r)).unwrap(); },
-        "ord" => for _ in 0..n { let a = gen::gen_val(&mut r, 2); let b = if r.chance(1, 6) { a.clone() } else { gen::gen_val(&mut r, 2) }; let c = if r.chance(1, 6) { b.clone() } else { gen::gen_val(&mut r, 2) };
+        "ord" => for i in 0..n { if i % 40 == 3 { let p: Vec<slac::Value> = vec![slac::Value::String("9223372036854775807".into()), slac::Value::Number(1e19), slac::Value::Number(1e30), slac::Value::Number(9223372036854775808.0),
+                    slac::Value::String("-9223372036854775808".into()), slac::Value::Number(-1e19), slac::Value::Number(3.0)];
+                writeln!(w, "ord {} {} {}", show_in(r.pick(&p)), show_in(r.pick(&p)), show_in(r.pick(&p))).unwrap(); continue; }
+            let a = gen::gen_val(&mut r, 2); let b = if r.chance(1, 6) { a.clone() } else { gen::gen_val(&mut r, 2) }; let c = if r.chance(1, 6) { b.clone() } else { gen::gen_val(&mut r, 2) };
             writeln!(w, "ord {} {} {}", show_in(&a), show_in(&b), show_in(&c)).unwrap(); },
         // C16: n = 0 → quick sample; n = 1 → everything (all 3 652 059 dates of years 1..9999, all 86 400 000 ms of day)
         "tmrange" => {
@@ -114,6 +123,7 @@ fn gen_stream(stream: &str, n: u64, seed: u64) {
                    for i in 0..20 { writeln!(w, "tmrange c {} 2000", seed.wrapping_mul(1000).wrapping_add(i)).unwrap(); }
                    for i in 0..20 { writeln!(w, "tmrange n {} 2000", seed.wrapping_mul(1000).wrapping_add(i)).unwrap(); }
                    writeln!(w, "tmrange r 0 2000").unwrap(); } }
+        "tmpairs" => for i in 0..n { writeln!(w, "tmrange p {} 500", seed.wrapping_mul(7919).wrapping_add(i)).unwrap(); },
         "mathlaw" => {
             // all code points (chunks), integers around 0 / 2^53 / random, doubles from the boundary pool + random bits
             let mut cp = 0u32; while cp < 0x110000 { writeln!(w, "mathlaw cp {} {}", cp, 4096.min(0x110000 - cp)).unwrap(); cp += 4096; }
